@@ -8,7 +8,7 @@ use rand_core::{RngCore, SeedableRng};
 use serde_json::{json, Value};
 use std::any::Any;
 
-pub trait Dyn: Send {
+pub trait Dyn {
     fn kind(&self) -> &'static str;
     fn as_any(&self) -> &dyn Any;
     fn next_u32(&mut self) -> Option<u32> {
